@@ -226,6 +226,10 @@ PyObject* HTMC::intersect(double ra, // all in degrees
 
 
 
+// margin (degrees) added to the search radius of the triangle search in
+// cbincount, see there
+#define BINCOUNT_COVER_PAD_DEGREES 1.0e-4
+
 PyObject* HTMC::cbincount(double rmin, // units of scale*angle in radians
                           double rmax, // units of scale*angle in radians
                           long nbin, 
@@ -310,14 +314,23 @@ PyObject* HTMC::cbincount(double rmin, // units of scale*angle in radians
             logscale = log10(scale);
         }
 
-        // get actual max search radius in radians for this point
+        // get actual max search radius for this point (degrees when no scale
+        // was sent, else radians)
         double d=0;
         double maxangle = rmax/scale;
-        if (degrees) { 
-            d = cos( maxangle*D2R );
-        } else {
-            d = cos( maxangle );
+
+        // The triangles are searched around a cap that is slightly larger
+        // than maxangle: cos(maxangle) cannot resolve small angles and the
+        // triangle search has its own tolerances, so without the margin pairs
+        // just inside rmax whose triangle only touches the cap were lost.
+        // Only the candidate list grows; pairs are still counted iff
+        // dis <= maxangle.
+        double searchangle = (degrees ? maxangle*D2R : maxangle)
+                             + BINCOUNT_COVER_PAD_DEGREES*D2R;
+        if (searchangle > NPY_PI) {
+            searchangle = NPY_PI;
         }
+        d = cos( searchangle );
 
         // Find the triangles around this point
         double ra1  = *(double *) PyArray_GETPTR1((PyArrayObject *) ra1_array,  i1);
